@@ -26,7 +26,7 @@ struct MCase {
     seqs: Vec<String>,
 }
 
-const SCORES: [&str; 6] = ["lexicographic", "reverse", "constant", "at_count", "rc_min", "parity"];
+const SCORES: [&str; 8] = ["lexicographic", "reverse", "constant", "at_count", "rc_min", "parity", "wide_shifted", "wide_hash64"];
 fn score_of(which: usize, p: usize, s: &[u8]) -> usize {
     let np = 1usize << (2 * p);
     let r = rank(s) as usize;
@@ -36,7 +36,10 @@ fn score_of(which: usize, p: usize, s: &[u8]) -> usize {
         2 => 7,
         3 => s.iter().filter(|b| **b == 0 || **b == 3).count(),
         4 => r.min(rank(&rc(s)) as usize),
-        _ => r % 2,
+        5 => r % 2,
+        // scores that need all 64 bits: order decided by the high half / by a 64-bit multiplicative hash
+        6 => (r << 40) | (np - 1 - r),
+        _ => (r as u64 + 1).wrapping_mul(0x9E37_79B9_7F4A_7C15) as usize,
     }
 }
 
@@ -102,6 +105,7 @@ macro_rules! with_p {
             5 => { type $P = Kmer5; $body }
             6 => { type $P = Kmer6; $body }
             8 => { type $P = Kmer8; $body }
+            10 => { type $P = Kmer10; $body }
             16 => { type $P = Kmer16; $body }
             x => panic!("no p-mer type {}", x),
         }
@@ -287,7 +291,7 @@ fn plan_c07(quick: bool, rep: &mut Report) {
         let mut blocks = vec![];
         for k in p..=p + 5 {
             for len in k..=lmax {
-                for score in 0..6 {
+                for score in 0..8 {
                     // containers: all three for the base score, DnaSlice otherwise
                     for cont in 0..(if score == 0 { 3 } else { 1 }) {
                         blocks.push(Block { name: String::new(), tmpl: MCase { prop: "C07".into(), p, k, score, cont, perm: 0, mrc: false, seqs: vec![] }, lens: vec![len] });
@@ -319,7 +323,7 @@ fn plan_c07(quick: bool, rep: &mut Report) {
                 seqs.push((0..len).map(|_| if g.base() < 2 { 0 } else { 3 }).collect());
             }
             for s in &seqs {
-                for score in if p <= 8 { vec![0usize, 1, 2, 3, 4, 5] } else { vec![2, 3, 5] } {
+                for score in if p <= 8 { vec![0usize, 1, 2, 3, 4, 5, 6, 7] } else { vec![0, 2, 3, 5, 7] } {
                     let c = MCase { prop: "C07".into(), p, k, score, cont: (n % 3) as usize, perm: 0, mrc: false, seqs: vec![ascii(s)] };
                     let o = guarded(|| run_c07(&c));
                     n += 1;
@@ -338,7 +342,7 @@ fn plan_c07(quick: bool, rep: &mut Report) {
     for (sig, det, case) in fails.into_iter().take(10) {
         rep.violation(vcommon::report::Violation { signature: sig, case, detail: det });
     }
-    rep.rule = "Scanner::scan (and the deprecated simple_scan for the two permutation scores): P in {Kmer2, Kmer3, Kmer4} x k = p..p+5 (including k = p) x EVERY sequence of length k..Lmax x 6 score functions {lexicographic, reverse, constant, AT-count, rc-min, parity} x containers {DnaSlice, DnaString, DnaBytes}; interval laws decided by brute force; plus structured long sequences (LCG, tandem repeats, 2-letter) for P in {5, 8, 16}, k up to 64 (content not exhaustive). Non-trivial = >= 2 intervals, tied scores or k = p".into();
+    rep.rule = "Scanner::scan (and the deprecated simple_scan for the two permutation scores): P in {Kmer2, Kmer3, Kmer4} x k = p..p+5 (including k = p) x EVERY sequence of length k..Lmax x 8 score functions {lexicographic, reverse, constant, AT-count, rc-min, parity, two 64-bit-wide scores} x containers {DnaSlice, DnaString, DnaBytes}; interval laws decided by brute force; plus structured long sequences (LCG, tandem repeats, 2-letter) for P in {5, 8, 16}, k up to 64 (content not exhaustive). Non-trivial = >= 2 intervals, tied scores or k = p".into();
     rep.floor("all-sequences/P2:two_or_more_intervals", 1);
     rep.floor("all-sequences/P3:k_equals_p", 1);
     rep.floor("all-sequences/P4:tied_scores", 1);
@@ -384,7 +388,7 @@ fn plan_c08(quick: bool, rep: &mut Report) {
     let mut g = Lcg(4711);
     let mut n = 0u64;
     let mut fails = vec![];
-    for (p, ks) in [(5usize, vec![6usize, 11, 16, 31, 32]), (6, vec![8, 24]), (8, vec![9, 16, 32, 48, 64])] {
+    for (p, ks) in [(5usize, vec![6usize, 11, 16, 31, 32]), (6, vec![8, 24]), (8, vec![9, 16, 32, 48, 64]), (10, vec![11, 16, 24])] {
         for k in ks {
             for len in [k, k + 1, 2 * k + 3, 200] {
                 let mut reads = vec![g.dna(len)];
@@ -394,7 +398,19 @@ fn plan_c08(quick: bool, rep: &mut Report) {
                 let mut pal = w.clone();
                 pal.extend(rc(&w));
                 reads.push(pal);
-                for perm in [0usize, 1, 4] {
+                // low-complexity reads (long runs, two letters) and every k-mer of the first reads as a read of its own,
+                // so that the same k-mer is seen alone and inside different contexts
+                let lc: S = (0..len).map(|i| if i % 11 == 0 { g.base() } else { 0 }).collect();
+                reads.push(lc);
+                reads.push((0..len).map(|_| if g.base() < 2 { 0 } else { 3 }).collect());
+                let singles: Vec<S> = reads.iter().flat_map(|r| windows(r, k)).take(if p >= 10 { 40 } else { 400 }).collect();
+                for w in singles {
+                    let mut f = vec![3u8];
+                    f.extend_from_slice(&w);
+                    reads.push(w);
+                    reads.push(f);
+                }
+                for perm in if p >= 10 { vec![0usize, 1] } else { vec![0usize, 1, 4] } {
                     for mrc in [true, false] {
                         for cont in 0..5 {
                             let c = MCase { prop: "C08".into(), p, k, score: 0, cont, perm, mrc, seqs: reads.iter().map(|r| ascii(r)).collect() };
@@ -417,7 +433,7 @@ fn plan_c08(quick: bool, rep: &mut Report) {
     for (sig, det, case) in fails.into_iter().take(10) {
         rep.violation(vcommon::report::Violation { signature: sig, case, detail: det });
     }
-    rep.rule = "msp_sequence: P in {Kmer2, Kmer3, Kmer4} x k = p+1..p+3(4) x EVERY read of length k..Lmax (plus each read's reverse complement as a second read when rc mode is on) and every ordered pair of short reads x permutations {default, reversed, rotation, affine, 2 LCG} x containers {DnaBytes, DnaString, Lmer1, Lmer2, Lmer3} x rc mode on/off (star design around the default); oracle: one bucket per (canonical) k-mer over the whole read set, pieces are the chained exact substrings overlapping by k-1, extensions are the flanking bases; plus structured reads for P in {5, 6, 8}, k up to 64".into();
+    rep.rule = "msp_sequence: P in {Kmer2, Kmer3, Kmer4} x k = p+1..p+3(4) x EVERY read of length k..Lmax (plus each read's reverse complement as a second read when rc mode is on) and every ordered pair of short reads x permutations {default, reversed, rotation, affine, 2 LCG} x containers {DnaBytes, DnaString, Lmer1, Lmer2, Lmer3} x rc mode on/off (star design around the default); oracle: one bucket per (canonical) k-mer over the whole read set, pieces are the chained exact substrings overlapping by k-1, extensions are the flanking bases; plus structured reads for P in {5, 6, 8, 10}, k up to 64, including low-complexity reads and every k-mer also as a read of its own".into();
     rep.floor("all-reads/P2:two_or_more_buckets", 1);
     rep.floor("all-reads/P3:palindromic_kmer", 1);
 }
